@@ -1,7 +1,36 @@
 import A2Verif.Model.Hex
-/-! driver family `c10` (stub until the family is built) -/
+import A2Verif.Model.Mkdsk
+/-!
+Driver family `c10`: `c10 decide <os> <kind> <type> <wrap|none> <boot 0|1> <volume hex|none> <ext hex> <dest-exists 0|1>`
+answers what the model of `mkdsk` decides: `ok wrote type=… fs=… cap=… bs=… total=… free=…`, `err nowrite` or `panic nowrite`.
+-/
 namespace A2Verif.Drv.C10
+open A2Verif.Gen.Mkdsk A2Verif.Model.Mkdsk
 
-def handle (_toks : List String) : String := "bad-request"
+def fsName : Fs → String
+  | .dos => "dos" | .prodos => "prodos" | .pascal => "pascal" | .cpm => "cpm" | .fat => "fat"
+
+def bool? : String → Option Bool
+  | "0" => some false
+  | "1" => some true
+  | _ => none
+
+def render (r : Result) : String :=
+  let w := if r.wrote then "wrote" else "nowrite"
+  match r.outcome with
+  | .ok p => s!"ok {w} type={p.typ.name} fs={fsName p.fs} cap={p.cap} bs={p.blockSize} total={p.total} free={p.free}"
+  | .err _ => s!"err {w}"
+  | .panic _ => s!"panic {w}"
+
+def handle (toks : List String) : String :=
+  match toks with
+  | ["decide", os, kind, typ, wrap, boot, vol, ext, dest] =>
+    let wrap? : Option (Option WrapArg) := if wrap == "none" then some none else (WrapArg.ofString wrap).map some
+    let vol? : Option (Option (List Nat)) := if vol == "none" then some none else (A2Verif.Hex.ofHex vol).map some
+    match Os.ofString os, KindArg.ofString kind, TypeArg.ofString typ, wrap?, bool? boot, vol?, A2Verif.Hex.ofHex ext, bool? dest with
+    | some o, some k, some t, some w, some b, some v, some e, some d =>
+      render (run { os := o, kind := k, typ := t, wrap := w, boot := b, vol := v, ext := e, destExists := d })
+    | _, _, _, _, _, _, _, _ => "bad-request"
+  | _ => "bad-request"
 
 end A2Verif.Drv.C10
